@@ -31,7 +31,7 @@ REQUIRED = [
     "calls.Perm.rotate", "calls.Perm.reverse", "calls.Perm.complement", "calls.Perm.inverse", "calls.Perm.flip_antidiagonal",
     "calls.Perm.reverse_complement", "calls.Perm.all_syms", "calls.MeshPatt.rotate", "calls.MeshPatt.reverse",
     "calls.MeshPatt.complement", "calls.MeshPatt.inverse", "calls.MeshPatt.all_syms", "calls.symmetry.all_symmetry_sets",
-    "calls.symmetry.lex_min", "equivariance.true", "equivariance.false", "cli.inprocess", "cli.subprocess", "relations.checked", "aliasing.orbit_mutated", "equivariance.random_classmethod_patterns", "equivariance.long_patterns",
+    "calls.symmetry.lex_min", "equivariance.true", "equivariance.false", "cli.inprocess", "cli.subprocess", "relations.checked", "aliasing.orbit_mutated", "equivariance.random_classmethod_patterns", "equivariance.long_patterns", "sets.other_containers", "equivariance.multi_pattern_calls",
 ]
 MIN_NONTRIVIAL = 500
 CTX = None
@@ -158,6 +158,8 @@ def post_all_symmetry_sets(args, kwargs, res, exc):
     CTX.ev()
     want = G.orbit_sets([tuple(p) for p in perms])
     got = {tuple(tuple(q) for q in tup) for tup in res} if exc is None else None
+    if got is not None and len(got) != len(res):
+        report("sets", [[list(p) for p in perms]], f"all_symmetry_sets returns {len(res)} members of which only {len(got)} are different sets of permutations")
     if got != want:
         report("sets", [[list(p) for p in perms]], f"all_symmetry_sets = {got} ({exc!r}), orbit of the set is {want}")
 
@@ -263,6 +265,23 @@ def chk_equiv(ctx, t, patt, g):
         report("equiv", [t, patt, g], "composite symmetry differs from the isometry")
 
 
+def chk_equiv_multi(ctx, t, patts, g):
+    """t.contains(p1, p2, ...) <=> g(t).contains(g(p1), g(p2), ...), left side by the oracle"""
+    T = Perm(t)
+    PS = [dec(q) for q in patts]
+
+    def truth(P):
+        return C.contains(tuple(T), tuple(P)) if isinstance(P, Perm) else M.contains(tuple(T), tuple(P.pattern), frozenset(P.shading))
+
+    want = all(truth(P) for P in PS)
+    gT, gPS = real_sym(T, g), [real_sym(P, g) for P in PS]
+    got, got_avoid = gT.contains(*gPS), gT.avoids(*gPS)
+    ctx.ev()
+    ctx.count("equivariance.multi_pattern_calls")
+    if got is not want or got_avoid is not (not any(truth(P) for P in PS)):
+        report("equivmulti", [t, patts, g], f"{tuple(T)} contains all of {PS!r} is {want}; image under symmetry #{g} answers contains={got}, avoids={got_avoid}")
+
+
 def cli_lexmin(text):
     from permuta import cli
 
@@ -299,6 +318,22 @@ def chk_sets(ctx, perms):
             report("sets", [perms], f"lex_min differs inside the orbit: {lm} vs {S.lex_min(list(tup))} for {tup}")
     for name in SET_HELPERS:
         list(getattr(S, name)(PS))
+    # the same collection in the other forms the functions are given in practice (the CLI hands over a Basis)
+    from permuta import Basis
+
+    base_list = [Perm(q) for q in minimal([tuple(p) for p in perms])]
+    if base_list and all(len(q) for q in base_list):
+        ref_sets = {tuple(tuple(q) for q in tup) for tup in S.all_symmetry_sets(base_list)}
+        ref_min = tuple(tuple(q) for q in S.lex_min(base_list))
+        for form in (tuple(base_list), Basis(*base_list), tuple(reversed(base_list))):
+            sets2, lm2 = S.all_symmetry_sets(form), S.lex_min(form)
+            ctx.ev()
+            ctx.count("sets.other_containers")
+            if {tuple(tuple(q) for q in tup) for tup in sets2} != ref_sets or len(sets2) != len(ref_sets) or tuple(tuple(q) for q in lm2) != ref_min:
+                report("sets", [perms], f"all_symmetry_sets / lex_min of the same permutations given as {type(form).__name__} differ from the list form")
+            for tup in list(sets2)[:8]:
+                if S.lex_min(list(tup)) != lm2 and tuple(tuple(q) for q in S.lex_min(list(tup))) == tuple(tuple(q) for q in lm2):
+                    report("sets", [perms], f"lex_min of a {type(form).__name__} compares unequal to the lex_min of another member of the same orbit although it denotes the same permutations")
     if all(len(p) <= 9 and len(p) >= 1 for p in perms) and perms:
         base = minimal([tuple(p) for p in perms])
         want = "_".join("".join(map(str, p)) for p in G.lex_min_set(base))
@@ -323,7 +358,7 @@ def chk_cli_subprocess(ctx, perms):
         report("cli", [perms], f"`permtools lexmin {text}` -> rc={res.returncode} {res.stdout.strip()!r}, want {want!r}")
 
 
-CHECKS = {"perm": chk_perm, "mesh": chk_mesh, "equiv": chk_equiv, "sets": chk_sets, "cli": chk_cli_subprocess}
+CHECKS = {"equivmulti": chk_equiv_multi, "perm": chk_perm, "mesh": chk_mesh, "equiv": chk_equiv, "sets": chk_sets, "cli": chk_cli_subprocess}
 
 
 # ---- workload ------------------------------------------------------------------------------------------
@@ -417,6 +452,17 @@ def run(ctx, spec):
                 dens = rng.choice([0.05, 0.1, 0.25])
                 patt = enc(MeshPatt(Perm(p), [(x, y) for x in range(k + 1) for y in range(k + 1) if rng.random() < dens]))
             chk_equiv(ctx, t, patt, rng.randrange(8))
+            if rng.random() < 0.3 and n >= 2:
+                # several patterns (mesh ones among them, some planted so that they are contained) in ONE call, all eight images
+                many = []
+                for _ in range(rng.randint(2, 3)):
+                    kk = rng.randint(1, min(3, n))
+                    pos = sorted(rng.sample(range(n), kk))
+                    q = list(C.std([t[i] for i in pos])) if rng.random() < 0.7 else rng.sample(range(kk), kk)
+                    dens = rng.choice([0.0, 0.05, 0.15])
+                    many.append(enc(MeshPatt(Perm(q), [(x, y) for x in range(kk + 1) for y in range(kk + 1) if rng.random() < dens])) if rng.random() < 0.8 else q)
+                for g in range(8):
+                    chk_equiv_multi(ctx, t, many, g)
         if spec.get("long"):
             # patterns of several hundred points inside a text with one extra point at the end / start / anywhere: all eight images
             k = rng.randint(500, 620)
